@@ -2078,11 +2078,17 @@ impl<'de, 'e> de::Deserializer<'de> for YamlDeserializer<'de, 'e> {
                 seed: K,
                 events: Vec<Ev<'de2>>,
                 kemn: bool,
+                reference_location: Option<Location>,
             ) -> Result<K::Value, Error>
             where
                 K: de::DeserializeSeed<'de2>,
             {
-                let mut replay = ReplayEvents::new(events);
+                // A key written as an alias (`*k : v`) is replayed from its anchor; keep the
+                // position of the alias token as the key's use-site.
+                let mut replay = match reference_location {
+                    Some(reference) => ReplayEvents::with_reference(events, reference),
+                    None => ReplayEvents::new(events),
+                };
 
                 // Get location from replay events for error reporting.
                 let location = replay.reference_location();
@@ -2242,7 +2248,8 @@ impl<'de, 'e> de::Deserializer<'de> for YamlDeserializer<'de, 'e> {
                             }
                         }
 
-                        let key_value = self.deserialize_recorded_key(key_seed, events, kemn)?;
+                        let key_value =
+                            self.deserialize_recorded_key(key_seed, events, kemn, None)?;
                         self.have_key = true;
                         self.pending_value = Some((value_events, reference_location));
 
@@ -2278,6 +2285,9 @@ impl<'de, 'e> de::Deserializer<'de> for YamlDeserializer<'de, 'e> {
                             return Ok(None);
                         }
                         Some(_) => {
+                            // Use-site of the key: its own position, or the alias token when the
+                            // key is written as `*k`.
+                            let key_reference_location = self.ev.reference_location();
                             let mut key_node = capture_node(self.ev)?;
                             if is_merge_key(&key_node) {
                                 // Preserve where the merge value is *referenced* (use-site).
@@ -2299,7 +2309,7 @@ impl<'de, 'e> de::Deserializer<'de> for YamlDeserializer<'de, 'e> {
                             match self.cfg.dup_policy {
                                 DuplicateKeyPolicy::Error => {
                                     if is_duplicate {
-                                        let location = key_node.location();
+                                        let location = key_reference_location;
                                         let key = key_node
                                             .fingerprint()
                                             .stringy_scalar_value()
@@ -2383,8 +2393,12 @@ impl<'de, 'e> de::Deserializer<'de> for YamlDeserializer<'de, 'e> {
                                     }
                                 }
 
-                                let key_value =
-                                    self.deserialize_recorded_key(key_seed, events, kemn_direct)?;
+                                let key_value = self.deserialize_recorded_key(
+                                    key_seed,
+                                    events,
+                                    kemn_direct,
+                                    Some(key_reference_location),
+                                )?;
                                 self.have_key = true;
                                 self.pending_value = None; // value will be read live
 
